@@ -61,7 +61,7 @@ class HTMLFormatter(BaseFormatter):
                     if magnitude.ndim == 0:
                         mstr = format_number(magnitude)
                     else:
-                        with np.printoptions(formatter={"float_kind": format_number}):
+                        with np.printoptions(formatter={"float_kind": format_number, "int_kind": format_number}):
                             mstr = (
                                 "<pre>" + format(magnitude).replace("\n", "") + "</pre>"
                             )
